@@ -1,4 +1,5 @@
 import TieD.ReachProofs
+import TieD.SumProofs
 /-!
 # TIED on every reachable diagram — no shape hypothesis left
 
@@ -26,5 +27,15 @@ theorem TIED_modelcount_reach (D : Dom) (d : Diagram (AVal D)) (hr : Reach d) (h
         (unitsI d.units) (d.root : Int) (nodesOf d.levels) (childOf d.levels) (adderOf d.levels) (d.diameter : Int) (d.C : Int)
       = d.modelcount AVal.sub? (D.vecs.map (AVal.clip D)) :=
   TIED_modelcount D d (reach_shape d hr).1 (Reach.inv hr).1 hd (reach_shape d hr).2.2 (reach_childBound d hr)
+
+/-- `ADD.sum` as written (product construction, `setdefault` numbering of the node pairs), on reachable operands with at least one candidate: the arrays of the model's
+`Diagram.sum`, to which `C10_sum` (pointwise sum of the operands) applies.  (With zero candidates the source never marks a node as existing while the model does —
+`SumP.sum_needs_candidate`; no diagram of the library has zero candidates.) -/
+theorem TIED_sum {V : Type} [AddCommMonoid V] (a b s : Diagram V) (ha : Reach a) (hb : Reach b) (hC : 0 < a.C) (h : a.sum b = .ok s) :
+    letI : Inhabited V := ⟨0⟩
+    GenD.add_sum (· + ·) (0 : V) (unitsI a.units) (a.root : Int) (nodesOf a.levels) (childOf a.levels) (adderOf a.levels) (a.diameter : Int) (a.C : Int)
+        (b.root : Int) (childOf b.levels) (adderOf b.levels) (b.diameter : Int)
+      = (unitsI s.units, (s.root : Int), nodesOf s.levels, childOf s.levels, adderOf s.levels, (s.diameter : Int)) :=
+  sum_eq a b s ha hb hC h
 
 end DsProofs.TieD
